@@ -304,8 +304,13 @@ func (n *TrainedNet) WriteBasm() (string, error) {
 			result += fmt.Sprintf("%%meta cpdef %s fragcollapse%s\n", cName[:len(cName)-1], cCode)
 		}
 
-		// Processing remaining nodes
+		// Processing remaining nodes, in name order
+		remainingNodes := make([]string, 0, len(ProcessedNodes))
 		for node := range ProcessedNodes {
+			remainingNodes = append(remainingNodes, node)
+		}
+		sort.Strings(remainingNodes)
+		for _, node := range remainingNodes {
 			result += fmt.Sprintf("%%meta cpdef %s fragcollapse:%s\n", node, node)
 		}
 
